@@ -3,6 +3,7 @@ package engine
 
 import (
 	"fmt"
+	"regexp"
 	"go/token"
 	"go/types"
 	"os"
@@ -31,6 +32,7 @@ type World struct {
 	structDT  map[string]*smt.Sort
 
 	Contracts    map[*ssa.Function]*Contract // by target function
+	ExtContracts map[*ssa.Function]map[string]*Contract // contracts on functions of other packages, by stating package
 	ByOrigin     map[*ssa.Function]*ssa.Function // generic origin -> instantiation that has a contract
 	IfaceCons    map[string]*Contract        // by "pkg.Iface.Method"
 	ContractList []*Contract
@@ -148,7 +150,7 @@ func Load(dir string, patterns []string, overlay map[string][]byte) (*World, err
 	prog.Build()
 	w := &World{Prog: prog, Pkgs: map[string]*ssa.Package{}, PPkgs: map[string]*packages.Package{},
 		fieldIDs: map[string]int{}, typeIDs: map[string]int{}, structDT: map[string]*smt.Sort{},
-		Contracts: map[*ssa.Function]*Contract{}, ByOrigin: map[*ssa.Function]*ssa.Function{}, IfaceCons: map[string]*Contract{},
+		Contracts: map[*ssa.Function]*Contract{}, ExtContracts: map[*ssa.Function]map[string]*Contract{}, ByOrigin: map[*ssa.Function]*ssa.Function{}, IfaceCons: map[string]*Contract{},
 		funcsByName: map[string]*ssa.Function{}, srcCache: map[string][]string{}, Notes: map[string]bool{}}
 	w.fieldInfo = append(w.fieldInfo, fieldInfo{})
 	w.typeByID = append(w.typeByID, nil)
@@ -182,8 +184,20 @@ func (w *World) SortedNotes() []string {
 // type is applied to another instantiation (pairs of from/to substrings).
 var keySubst [][2]string
 
+var (
+	byteRe = regexp.MustCompile(`\bbyte\b`)
+	runeRe = regexp.MustCompile(`\brune\b`)
+)
+
 func typeName(t types.Type) string {
 	s := types.TypeString(t, nil)
+	// byte/uint8 and rune/int32 are identical types: one name, one heap
+	if strings.Contains(s, "byte") {
+		s = byteRe.ReplaceAllString(s, "uint8")
+	}
+	if strings.Contains(s, "rune") {
+		s = runeRe.ReplaceAllString(s, "int32")
+	}
 	for _, p := range keySubst {
 		s = strings.ReplaceAll(s, p[0], p[1])
 	}
